@@ -334,7 +334,7 @@ func init() {
 		return res.Viol, nil
 	}
 	registerCheck("C03", "model_checking", 120*time.Second, 25*time.Minute, func(r *Run) {
-		depth := 3
+		depth := 4
 		if !r.Quick() {
 			depth = 5
 		}
